@@ -5,6 +5,7 @@ import Qsx.Model.Xform
 import Qsx.Model.Round
 import Qsx.Model.SolFile
 import Qsx.Model.Cap
+import Qsx.Model.LpBounds
 import Qsx.Model.Multi
 import Qsx.Model.Driver
 import Qsx.Model.Num
@@ -442,6 +443,28 @@ def answer (cx : Ctx) (toks : List String) : Ctx × List String :=
       let (_, out) := ops.foldl (fun (acc : Qsx.Cap.S × List String) o =>
         let s' := (Qsx.Cap.step acc.1 o).1
         (s', acc.2 ++ [s!"s {s'.nrows} {s'.ncols} {s'.nstruct} {s'.matcols} {s'.rowsize} {s'.colsize} {s'.structsize} {s'.matcolsize}"])) (s0, [])
+      pure out).run' rest
+    (cx, r.getD ["bad-op"])
+  | "bounds" :: rest =>
+    -- C08/C09: bounds <lp|mps> n {lo up isInt}*n : what the writer prints for each column
+    let r : Option (List String) := (do
+      let fmt ← pTok
+      let n ← pNat
+      let cols ← pMany n (do let lo ← pRat cx; let up ← pRat cx; let i ← pNat; pure (lo, up, i != 0))
+      let showO (o : Option Rat) : String := match o with | some v => fmtRat cx v | none => "-"
+      let out := (List.range n).map fun j =>
+        let (lo, up, isInt) := cols.getD j (0, 0, false)
+        if fmt == "lp" then
+          match Qsx.LpBounds.writeCol lo up cx.pinf cx.ninf isInt with
+          | none => s!"c {j} none"
+          | some (.fixed v) => s!"c {j} fixed {fmtRat cx v}"
+          | some .free => s!"c {j} free"
+          | some (.range a b) => s!"c {j} range {showO a} {showO b}"
+        else
+          let rs := Qsx.MpsBounds.writeCol lo up cx.pinf cx.ninf isInt
+          s!"c {j}" ++ rs.foldl (fun (acc : String) (r : Qsx.MpsBounds.Rec) => acc ++ (match r with
+            | .fx v => s!" FX {fmtRat cx v}" | .fr => " FR" | .mi => " MI" | .lo v => s!" LO {fmtRat cx v}"
+            | .pl => " PL" | .up v => s!" UP {fmtRat cx v}")) ""
       pure out).run' rest
     (cx, r.getD ["bad-op"])
   | "tointernal" :: rest =>
